@@ -49,7 +49,7 @@ def observe(real, s, v_abs, v_real, nprobes, rng):
             g["rep"], g["w"] = try_abs(am.a_value, w)
         ev["gens"].append(g)
     probes = mutants.probes_plain(v_abs)
-    if nprobes is not None and len(probes) > nprobes:
+    if nprobes is not None and len(probes) > max(nprobes, 32):      # the probes of a scalar are all kept
         probes = [probes[0]] + rng.sample(probes[1:], nprobes - 1)
     for w in probes:
         try:
